@@ -80,6 +80,20 @@ def check(repo: Repo, rep: Report) -> None:
         used = [call_name(n) for n in f.all_nodes() if isinstance(n, ast.Call)]
         missing = [p for p in parts if p not in used]
         rep.ob("K4-composites", f, f"{name} uses {parts}", not missing, f"{name} is no longer defined through {missing}")
+    TC.pipelines_exact(repo, rep, "K4-composites", {
+        ("reactivex/operators/_reduce.py", "reduce_"): [["scan", "last_or_default"], ["scan", "last"]],
+        ("reactivex/operators/_count.py", "count_"): [["filter", "count"], ["reduce"]],
+        ("reactivex/operators/_sum.py", "sum_"): [["map", "sum"], ["reduce"]],
+        ("reactivex/operators/_average.py", "average_"): [["map", "scan", "last", "map"]],
+        ("reactivex/operators/_min.py", "min_"): [["min_by", "map"]],
+        ("reactivex/operators/_max.py", "max_"): [["max_by", "map"]],
+        ("reactivex/operators/_all.py", "all_"): [["filter", "some", "map"]],
+        ("reactivex/operators/_contains.py", "contains_"): [["filter", "some"]],
+        ("reactivex/operators/_isempty.py", "is_empty_"): [["some", "map"]],
+        ("reactivex/operators/_first.py", "first_"): [["filter", "first"]],
+        ("reactivex/operators/_last.py", "last_"): [["filter", "last"]],
+        ("reactivex/operators/_single.py", "single_"): [["filter", "single"]],
+    })
     for rel, d, flag in ERRKINDS:
         f = repo.fn(rel, d)
         errs = []
